@@ -598,6 +598,7 @@ package store
 //@   requires storeINV(s) && !isBatch(s.ds) && s.pending != nil
 //@   modifies $now, ghost:hcHas, ghost:hcVal, ghost:icHas, ghost:icVal, ghost:btHas, ghost:btPuts, ghost:btVal, ghost:dsHas, ghost:dsVal, ghost:dsWrites, AP_set, AP_val_Hdr, AT_u64, MH_Int_Hdr_has, MH_Int_Hdr_val, MH_Str_Int_has, MH_Str_Int_val, sub.count, MH_Int_Int_has, MH_Int_Int_val, ghost:arrived
 //@   ensures [C04] inv: storeINV(s)
+//@   ensures [C06] drained-at-exit: forall h uint64 @ has(s.pending.headers, h) :: !has(s.pending.headers, h) -- the loop only ends on the stop signal, after flushing everything it accepted
 //@ loop 0:
 //@   invariant inv: storeINV(s) && !isBatch(s.ds) && s.pending != nil
 //@ loop 1:
@@ -612,3 +613,13 @@ package store
 //@   requires s.ds != nil && !isBatch(s.ds) && s.heightSub != nil && s.heightIndex != nil
 //@   modifies $now, ghost:hcHas, ghost:hcVal, ghost:dsHas, ghost:dsWrites, ghost:dsDeletes, elems(Bytes), AP_set, AP_val_Hdr, AT_u64, sub.count, MH_Int_Int_has, MH_Int_Int_val, ghost:arrived, Store.writesDn, Store.cancel
 //@   ensures [C06] no-header-lost: forall k Key @ dsHas[k] :: k != headKey && k != tailKey ==> (dsHas[k] <==> old(dsHas)[k])
+
+// Stop: the stop signal travels through the write queue behind every accepted Append; the flush loop's context
+// must stay alive until the loop has drained that queue (C06: a clean Stop loses nothing and leaves the head
+// where the last append put it)
+//@ func (*Store).Stop(s, ctx)
+//@   props C06
+//@   requires s.heightIndex != nil && s.heightSub != nil
+//@   modifies ghost:hcHas, ghost:icHas, AP_set, AP_val_Hdr, AT_u64, sub.count, MH_Int_Int_has, MH_Int_Int_val, ghost:arrived
+//@   before cancel [C06] cancel-after-drain: recvd("Store.writesDn") > 0 -- the writer has finished before its context is cancelled
+//@   ensures [C06] signal-queued: result == nil ==> sent("Store.writes") == old(sent("Store.writes")) + 1
